@@ -123,15 +123,15 @@ Section Rng.
   Lemma okpos_cond G p r l : (p <= len)%nat -> cond_results (p, G) r = Some l -> okpos l.
   Proof. intro Hp. destruct r as [e|[|]]; simpl; intro H; inversion H; subst; repeat constructor; exact Hp. Qed.
 
-  Lemma okpos_l1 (stepf : nat -> option (option nat)) G mn mx gr :
+  Lemma okpos_l1 (stepf : nat -> option (option nat)) chk G mn mx gr :
     (forall q q', (q <= len)%nat -> stepf q = Some (Some q') -> (q' <= len)%nat) ->
-    forall lf k q l, (q <= len)%nat -> l1_results stepf G mn mx gr lf k q = Some l -> okpos l.
+    forall lf k q l, (q <= len)%nat -> l1_results stepf chk G mn mx gr lf k q = Some l -> okpos l.
   Proof.
     intro Hst. induction lf as [|lf IH]; intros k q l Hq H; [discriminate|]. cbn [l1_results] in H.
     destruct (if k <? max_val mx then stepf q else Some None) as [[q'|]|] eqn:Et; [| |discriminate].
     - assert (Hq' : (q' <= len)%nat).
       { destruct (k <? max_val mx); [eapply Hst; eauto|discriminate]. }
-      destruct (l1_results stepf G mn mx gr lf (k + 1) q') as [it|] eqn:Ei; [|discriminate].
+      destruct (chk q q'); [|discriminate]. destruct (l1_results stepf chk G mn mx gr lf (k + 1) q') as [it|] eqn:Ei; [|discriminate].
       apply IH in Ei; [|exact Hq']. inversion H; subst. destruct (mn <=? k); [|exact Ei].
       destruct gr; [apply Forall_app; split; auto|constructor; auto]; repeat constructor; exact Hq.
     - inversion H; subst. destruct (mn <=? k); repeat constructor. exact Hq.
@@ -241,7 +241,7 @@ Section Rng.
       eapply (loop_range f IHf body fwd mn mx gr egs ege f 0 p p G l Hp). exact Hr.
     - (* Loop1CharBody *)
       destruct (single_step ix unicode h (negb fwd) body fwd) as [stepf|] eqn:Es; [|discriminate].
-      eapply (okpos_l1 stepf G mn mx gr); [|exact Hp|exact Hr].
+      eapply (okpos_l1 stepf _ G mn mx gr); [|exact Hp|exact Hr].
       intros q q' Hq Hst. unfold single_step in Es.
       destruct (leaf_code (negb fwd) body) as [code|].
       + inversion Es; subst stepf. eapply run_insns_range; eauto.
